@@ -419,8 +419,8 @@ def _merge_single_markers(
             result_specifier = marker1.specifier | marker2.specifier
     except InvalidVersionSpecifier:
         # a literal that is not a version (platform_release == "4.9.253-tegra") has no
-        # specifier view: leave the two atoms alone
-        return None
+        # specifier view: leave the two atoms alone, unless they are the same atom
+        return marker1 if marker1 == marker2 else None
     except NotImplementedError:
         if marker1.op == marker2.op == "==" and merge_class is MarkerUnion:
             return EqualityMarkerUnion(
